@@ -529,7 +529,15 @@ impl Session {
 			}
 			("sizes", _) => {
 				// cfg-guarded hook in /repo (commit 57065e9): sizes of the four manager tables
-				obs.sizes = Some(self.client.verif_table_sizes());
+				#[cfg(jsonrpsee_verif)]
+				{
+					obs.sizes = Some(self.client.verif_table_sizes());
+				}
+				// built without the hook (every property but C18): the op is not available
+				#[cfg(not(jsonrpsee_verif))]
+				{
+					obs.literal = Some("no-hook".into());
+				}
 			}
 			_ => {
 				obs.literal = Some("bad-op".into());
